@@ -70,7 +70,7 @@ func (c07) Gen(r *rand.Rand, tier string, idx int) *core.Plan {
 		}
 		exp := core.Pick(r, int64(0), 1, 2, 3600, 86400*365)
 		p.Ops = append(p.Ops, core.Op{Kind: "roundtrip", I: []int64{int64(r.IntN(2)), key, int64(r.IntN(2)), size, exp, int64(r.IntN(1000)), int64(r.IntN(4)),
-			int64(core.Pick(r, 0, 0, 1, 2, 3)), int64(core.Pick(r, 0, 0, 1, 1, 2, 3, 4, 5, 6)), int64(r.IntN(1001)), int64(r.IntN(2)), int64(r.IntN(2)), int64(r.IntN(4)), int64(r.IntN(1000))}})
+			int64(core.Pick(r, 0, 0, 1, 2, 3)), int64(core.Pick(r, 0, 0, 1, 1, 2, 3, 4, 5, 6, 7)), int64(r.IntN(1001)), int64(r.IntN(2)), int64(r.IntN(2)), int64(r.IntN(4)), int64(r.IntN(1000))}})
 	}
 	return p
 }
@@ -86,12 +86,21 @@ type faultyReader struct {
 	// dataWithEOF: the final bytes are handed out together with io.EOF, which the io.Reader contract allows
 	// (gzip, zip entries, some HTTP bodies, iotest.DataErrReader)
 	dataWithEOF bool
+	// cancelAt >= 0: once this many bytes were delivered the caller's context is cancelled (cancel); the stream
+	// itself goes on undisturbed
+	cancelAt int
+	cancel   func()
 }
 
 var errStream = errors.New("simulated: stream failed")
 
 func (f *faultyReader) Read(p []byte) (int, error) {
 	rt.Yield("stream")
+	if f.cancel != nil && f.cancelAt >= 0 && f.pos >= f.cancelAt {
+		f.cancel()
+		f.cancel = nil
+		rt.Yield("cancelled")
+	}
 	if f.errAt >= 0 && f.pos >= f.errAt {
 		return 0, errStream
 	}
@@ -223,7 +232,7 @@ func (l c07) Exec(env *core.Env) *core.Result {
 			}
 			mt := c07MediaTypes[op.Int(12)%4]
 			if isBlob {
-				rd := &faultyReader{data: content, errAt: -1}
+				rd := &faultyReader{data: content, errAt: -1, cancelAt: -1}
 				if readerMode == 1 {
 					rd.chunk = 1 + int(op.Int(9))%700
 				}
@@ -234,7 +243,25 @@ func (l c07) Exec(env *core.Env) *core.Result {
 					rd.dataWithEOF = true
 					rd.chunk = 1 + int(op.Int(9)*13)%40000
 				}
-				sig, _, err = notation.SignBlob(ctx, sgn, rd, notation.SignBlobOptions{SignerSignOptions: opts, ContentMediaType: mt, UserMetadata: meta})
+				sctx := ctx
+				if readerMode == 7 {
+					// the caller's context ends while the blob is being read (the stream itself is fine)
+					var cancel context.CancelFunc
+					sctx, cancel = context.WithCancel(ctx)
+					rd.cancelAt, rd.cancel = int(int64(size)*op.Int(9)/1000), cancel
+					rd.chunk = 1 + int(op.Int(9)*7)%5000
+					defer cancel()
+				}
+				sig, _, err = notation.SignBlob(sctx, sgn, rd, notation.SignBlobOptions{SignerSignOptions: opts, ContentMediaType: mt, UserMetadata: meta})
+				if readerMode == 7 {
+					res.Probe("context_ended_while_signing_a_blob")
+					if err != nil {
+						// refusing because the context ended is fine; a signature, if one is returned, is judged below
+						trace = append(trace, map[string]any{"op": key, "result": "sign refused (context ended)"})
+						sim.Abstract(key + "|signcancelled")
+						continue
+					}
+				}
 				if readerMode == 2 {
 					res.Probe("reader_error_while_signing")
 					if err == nil {
@@ -285,7 +312,7 @@ func (l c07) Exec(env *core.Env) *core.Result {
 			var outcome *notation.VerificationOutcome
 			var gotDesc ocispec.Descriptor
 			if isBlob {
-				rd := &faultyReader{data: content, errAt: -1}
+				rd := &faultyReader{data: content, errAt: -1, cancelAt: -1}
 				if readerMode == 1 {
 					rd.chunk = 1 + int(op.Int(9)*7)%900
 				}
@@ -359,7 +386,19 @@ func (l c07) Exec(env *core.Env) *core.Result {
 					other = append([]byte{}, content...)
 					other[int(op.Int(9))%len(other)] ^= 0x20
 				}
-				d2, o2, err2 := notation.VerifyBlob(ctx, v, bytes.NewReader(other), sig, notation.VerifyBlobOptions{
+				var otherRd io.Reader = bytes.NewReader(other)
+				vctx := ctx
+				if op.Int(9)%3 == 0 {
+					// the other blob is the signed one followed by more bytes, and the caller's context ends exactly
+					// when the signed prefix has been read
+					other = append(append([]byte{}, content...), []byte("...and a tail that was never signed")...)
+					var cancel context.CancelFunc
+					vctx, cancel = context.WithCancel(ctx)
+					otherRd = &faultyReader{data: other, errAt: -1, cancelAt: len(content), cancel: cancel, chunk: 1 + len(content)}
+					defer cancel()
+					res.Probe("context_ended_while_verifying_a_longer_blob")
+				}
+				d2, o2, err2 := notation.VerifyBlob(vctx, v, otherRd, sig, notation.VerifyBlobOptions{
 					BlobVerifierVerifyOptions: notation.BlobVerifierVerifyOptions{SignatureMediaType: format, UserMetadata: meta}, ContentMediaType: mt})
 				res.Probe("same_signature_next_to_another_blob")
 				if err2 == nil && (o2 == nil || o2.Error == nil) && d2.Digest != want.Digest.Algorithm().FromBytes(other) {
